@@ -164,7 +164,7 @@ def _rest(ctx, rep):
         cfgx = ctx.cfg(fn_)
         for n in cfgx.live_nodes():
             if n.kind == "stmt" and isinstance(n.ast, ast.Assign):
-                rep.check(not cfgx.guards(n.id) and cfgx.all_paths_pass(cfgx.entry, cfgx.exit, [n.id]), "R3",
+                rep.check(cfgx.unconditional(n.id) and cfgx.all_paths_pass(cfgx.entry, cfgx.exit, [n.id]), "R3",
                           key(fn_, n.ast, "unconditional"), fn_, n.ast,
                           "a conditional reset keeps state of an earlier closure (e.g. the first closing time)")
                 if fn_ is clm:
